@@ -312,13 +312,16 @@ Ret(p, mark) ==
 
 (* ---- sensors ------------------------------------------------------------------------------- *)
 (* The race detector (or the runtime's "concurrent map read and map write" check) reported an   *)
-(* unsynchronised pair of accesses to the subscriber table: a read in function rd, a write in    *)
-(* function wr, both on the outer map (type -> inner map) or not (tbl = "outer" / "inner" /      *)
-(* "mixed").  IDEAL has no such pair (NoTableAccessWithoutLock); the only pair ACTUAL has is the *)
-(* unlocked look-up of the outer map in Dispatch (d_peek reads keys) against the outer-map write *)
-(* in Register (r2 writes keys).                                                                 *)
-RaceObserved(rd, wr, tbl) ==
-  /\ KF_DispatchReadsTableUnlocked /\ rd = "Dispatch" /\ wr = "Register" /\ tbl = "outer"
+(* unsynchronised pair of accesses to the subscriber table: a read in function rd (site: before  *)
+(* mu.RLock() is taken - "prelock" - or after - "locked" - when rd is Dispatch, else "na"), a     *)
+(* write in function wr ("unknown" when the runtime's crash dump no longer shows the writer),     *)
+(* both on the outer map (type -> inner map) or not (tbl = "outer" / "inner" / "mixed").         *)
+(* IDEAL has no such pair (NoTableAccessWithoutLock); the only pair ACTUAL has is the unlocked    *)
+(* look-up of the outer map in Dispatch (d_peek reads keys) against the outer-map write in       *)
+(* Register (r2 writes keys).                                                                    *)
+RaceObserved(rd, site, wr, tbl) ==
+  /\ KF_DispatchReadsTableUnlocked
+  /\ rd = "Dispatch" /\ site = "prelock" /\ wr \in {"Register", "unknown"} /\ tbl = "outer"
   /\ dev' = dev \cup {"KF_DispatchReadsTableUnlocked"}
   /\ UNCHANGED <<dvars, cd, hist>>
 
